@@ -64,30 +64,6 @@ func parse6(b []byte) (res string, cm *ipv6.ControlMessage) {
 	return
 }
 
-// hasNilParserMsg: reference walk over the cmsg sequence (independent of internal/socket): is there a
-// message of level IPPROTO_IP and type 0 before the walk stops? (ipv4's ctlOpts entries for Dst and
-// Interface are the zero value on Linux, so Parse calls a nil function for such a message.)
-func hasNilParserMsg(b []byte) bool {
-	for len(b) >= 16 {
-		l := int64(binary.LittleEndian.Uint64(b[:8]))
-		if l < 16 || uint64(l) > uint64(len(b)) {
-			return false
-		}
-		lvl := int32(binary.LittleEndian.Uint32(b[8:12]))
-		typ := int32(binary.LittleEndian.Uint32(b[12:16]))
-		if lvl == 0 && typ == 0 {
-			return true
-		}
-		sp := int((l + 7) &^ 7)
-		if len(b) >= sp {
-			b = b[sp:]
-		} else {
-			b = b[l:]
-		}
-	}
-	return false
-}
-
 func runCtl(op string, t []string, o *vu.Out) bool {
 	k := &toks{t: t[1:]}
 	switch t[0] {
@@ -171,11 +147,7 @@ func runCtl(op string, t []string, o *vu.Out) bool {
 		}
 		o.Op(op, res)
 		if res == "panic" {
-			sig := ""
-			if t[0] == "cm4p" && hasNilParserMsg(b) {
-				sig = "cm4-parse-nil-parser"
-			}
-			o.Fail(sig, fmt.Sprintf("%s: ControlMessage.Parse panicked on %x", t[0], b))
+			o.Fail("", fmt.Sprintf("%s: ControlMessage.Parse panicked on %x", t[0], b))
 		}
 		return true
 	}
